@@ -28,7 +28,7 @@ def hdc_case(draw, tier, dims=(2, 2, 2, 3), bimodal=False):
     alpha = float(10.0 ** draw(st.floats(-6, math.log10(0.3))))
     # grid: cells per axis
     if n == 2:
-        hi_cells = 400 if tier == "thorough" else 160
+        hi_cells = 320 if tier == "thorough" else 160  # (virocon's optimal-start search keeps n^2 path entries: ~0.5 GB at 4000 boundary cells)
         cells = [draw(st.integers(10, hi_cells)) for _ in range(n)]
     else:
         hi_cells = 80 if tier == "thorough" else 36
